@@ -692,6 +692,21 @@ func branchSlotIsLoopIndex(w *World, r *Report, rule string) {
 				}
 			}
 		}
-		r.Check(sameIdx && rangeIdx, rule, "calculateBranch -> preBranchHandlerManager.handle index", c.Pos(), "handler list, input copy and branch are selected by the same loop index", "the pre-branch handler list is selected by something other than the branch's position (e.g. a mutable idx field shared between graphs)")
+		// the position recorded in the branch at attach time is as good as the loop index PROVIDED the graph owns the
+		// branch object it recorded it in (addBranch works on a copy and never writes through the caller's value —
+		// C20.branch-value-not-mutated): only then no other attachment can overwrite it
+		if !rangeIdx {
+			if f, _ := loadedField(idx); f != nil && f.Name() == "idx" {
+				ab := w.Fn("compose", "graph.addBranch")
+				owns := true
+				for _, fw := range fieldWrites(ab) {
+					if p := paramRoot(fw.base, 0); p != nil && p.Name() == "branch" {
+						owns = false
+					}
+				}
+				rangeIdx = owns
+			}
+		}
+		r.Check(sameIdx && rangeIdx, rule, "calculateBranch -> preBranchHandlerManager.handle index", c.Pos(), "handler list, input copy and branch are selected by the same slot: the loop index, or the position recorded in the graph's own copy of the branch", "the pre-branch handler list is selected by something other than the branch's position (e.g. a mutable idx field of a *GraphBranch shared between attachments)")
 	}
 }
